@@ -4,6 +4,7 @@ import os
 
 import fam_l
 import fam_misc
+import fam_f
 from fam_l import base_consts
 from vlib import Inconclusive, build_harness, log
 
@@ -110,6 +111,9 @@ CHECKS = {
     "C05": dict(level="model_checking", run=run_l(plans_core)),
     "C04": dict(level="model_checking", run=run_l(plans_c04)),
     "C06": dict(level="model_checking", run=run_l(plans_c06)),
+    "C09": dict(level="model_checking", run=fam_f.run_family_f),
+    "C10": dict(level="model_checking", run=fam_f.run_family_f),
+    "C11": dict(level="model_checking", run=fam_f.run_family_f),
     "C15": dict(level="model_checking", run=run_l(plans_c15)),
     "C19": dict(level="model_checking", run=fam_misc.run_c19),
     "C20": dict(level="model_checking", run=fam_misc.run_c20),
